@@ -78,7 +78,12 @@ UNK_BUFFER = [(("unk", "the printer writes into a buffer parameter (not modelled
 
 def interp(core):
     pf = P.printer_fns(core)
-    return Y.Interp(core, set(pf.keys()), lambda n: H.macro_templates(core, n)), pf
+    I_ = Y.Interp(core, set(pf.keys()), lambda n: H.macro_templates(core, n))
+    try:
+        I_.variant_helpers = set(dispatch_map(core, pf).keys())
+    except Exception:
+        I_.variant_helpers = set()
+    return I_, pf
 
 
 def dispatch_map(core, pf):
@@ -118,6 +123,27 @@ def dispatch_map(core, pf):
                         if ren:
                             out[x["def"]] = (vs[0], ren)
     return out
+
+
+def general_printer(core, pf, tag):
+    """is `tag` (a def path or a bare function name) a printer with an arm per node kind, or a thin entry point of one"""
+    c = general_printer.__dict__.setdefault("cache", {})
+    key = (id(core), tag)
+    if key in c:
+        return c[key]
+    names = [tag] if tag in pf else [k for k in pf if k.endswith("::" + str(tag))]
+    ok = False if names else True   # not a printer of the modules at all (e.g. prerendered): not judged here
+    for nm in names:
+        f = pf[nm]
+        body = f.get("body") or {}
+        if any(len(m["arms"]) >= 5 for m in H.matches_on(body, "ast::Expr")) or any(len(m["arms"]) >= 4 for m in H.matches_on(body, "values::SerializableValue")):
+            ok = True
+        elif sum(1 for x in H.walk(body) if H.kind(x) in ("Call", "MethodCall")) <= 12 and any(H.kind(x) == "Call" and (x.get("def") or "") in pf and any(len(m["arms"]) >= 5 for m in H.matches_on(pf[x["def"]].get("body") or {}, "ast::Expr")) for x in H.walk(body)):
+            ok = True   # a thin wrapper around a general printer (format_expr_impl -> format_single_line / format_multiline)
+        elif "LambdaArg" in " ".join(f.get("inputs", [])) or "RecordKey" in " ".join(f.get("inputs", [])) or "BinaryOp" in " ".join(f.get("inputs", [])) or "UnaryOp" in " ".join(f.get("inputs", [])) or "PostfixOp" in " ".join(f.get("inputs", [])):
+            ok = True   # printers of operators / parameters / keys: their own kinds
+    c[key] = ok
+    return ok
 
 
 def strip_layout(flat):
@@ -293,7 +319,10 @@ def shape_rules(ctx, rid, core, G, scope_fns):
                 # a whole member list handed to one helper call (`format_collection(entries, ..)`): the construct is printed there
                 lists_ = {w[1] for w in SKEL[variant] if isinstance(w, tuple) and w[0] == "L"}
                 delegated = [x for x in strip_layout(flat) if x[0] == "child" and x[1] and len(x[1]) == 1 and ren.get(x[1][0], x[1][0]) in lists_]
-                if foreign or delegated:
+                # a child printed by a helper that is not one of the general printers (those with an arm per node kind): the helper may
+                # contribute tokens of this construct itself (`format_else_part` prints the `else`)
+                partial = [x for x in strip_layout(flat) if x[0] == "child" and x[2] and not general_printer(core, pf, x[2])]
+                if foreign or delegated or partial:
                     unk = True
                     continue
                 bad.append(why)
